@@ -225,10 +225,13 @@ func c09Plan(tier string) []c09Phase {
 	if tier != "thorough" {
 		l2 := append(sharedOnly(l2Blocks(3, 5, 2)), four(2)...)
 		l2 = append(l2, four(3)...)
+		// quick: release operations are not preemption points anywhere (the
+		// thorough tier explores k=2 with all scheduling points); cheap level-2
+		// phase first, then level 1, so that a loaded machine covers both levels
 		return []c09Phase{
 			l2Phase("L2 two-transaction blocks P<=2", 2, l2Blocks(2, 7, 2)),
+			l1Phase("L1 k=2 P<=2 (release operations not preemptible)", 2, true, k2),
 			l2Phase("L2 three/four-transaction blocks P<=1", 1, l2),
-			l1Phase("L1 k=2 P<=2 (all scheduling points)", 2, false, k2),
 			l1Phase("L1 k=2 retry/empty-root and k=3 P<=2 (release operations not preemptible)", 2, true, k2r, k3one),
 		}
 	}
